@@ -97,7 +97,7 @@ func (f *Fn) Prov(e ast.Expr) string { return f.prov(e, 0, map[*types.Var]bool{}
 
 func (f *Fn) prov(e ast.Expr, depth int, busy map[*types.Var]bool) string {
 	e = ast.Unparen(e)
-	if depth > 6 {
+	if depth > 14 {
 		return "?"
 	}
 	if tv, ok := f.Info.Types[e]; ok && tv.Value != nil {
